@@ -39,7 +39,7 @@ var completerBias = false
 
 func genOpt(r *rand.Rand, ns *nameSpace, nsPrefix string, allowReq bool) *OptNode {
 	o := genOptRaw(r, ns, nsPrefix, allowReq)
-	if o != nil && completerBias && o.VType == "string" && len(o.Choices) == 0 && !o.Validator && (o.Kind == "scalar" || o.Kind == "slice") && chance(r, 0.6) {
+	if o != nil && completerBias && o.VType == "string" && len(o.Choices) == 0 && !o.Validator && (o.Kind == "scalar" || o.Kind == "slice" || o.Kind == "ptr") && chance(r, 0.6) {
 		o.VType = "cc"
 		o.Init = nil
 	}
